@@ -20,7 +20,7 @@ m = {
   'source_commits': hook_commits(),
   'add_only': True,
  },
- 'engines': [{'name': n, 'path': e['src'][0], 'serves_properties': sorted(p for p in PROPS if PROPS[p]['engine'] == n),
+ 'engines': [{'name': n, 'path': e['src'][0], 'serves_properties': sorted(p for p in PROPS if n in (PROPS[p].get('engines') or [PROPS[p]['engine']])),
               'kind_free_text': e.get('kind', 'deterministic simulation harness (C, fibers, seeded scheduler, fault injection)')}
              for n, e in ENGINES.items()],
  'checks': [],
